@@ -166,6 +166,14 @@ def run(tier, seed):
                    "from_dok/from_lol, taco_indices/vals, items, to_dok, to_format, pickle. Non-trivial = at least one "
                    "non-zero entry.",
            "samples": samples, "exhaustive": exhaustive, "bounds": PARAMS[tier]}
+    from .. import structure_conf
+
+    sv, sr, sn = structure_conf.check_default(tier)
+    vio += sv
+    cov["states"] += sr.distinct
+    cov["transitions"] += sr.generated
+    cov["default_format_cases_compared"] = sn
+    cov["traces_validated_against_impl"] += sn
     return {"violations": vio, "coverage": cov,
             "assumptions": ["values are small exact dyadics", "bounded orders/dimensions as listed in bounds"]}
 
